@@ -34,6 +34,8 @@ def units(tier, seed):
         {"sid": "list", "family": "lists", "size": 10 if q else 12, "donor": ("lists", 8), "max_slices": 24 if q else 50},
         {"sid": "basic", "family": "blocks2", "size": 4 if q else 5, "donor": ("blocks2", 4), "max_slices": 30 if q else 60},
         {"sid": "basic", "family": "links", "size": 4 if q else 5, "donor": ("links", 3), "max_slices": 24 if q else 50},
+        # three and more adjacent text nodes that a merged mark step fuses at once
+        {"sid": "basic", "family": "marks3", "size": 5 if q else 6, "donor": ("marks3", 3), "max_slices": 8 if q else 16},
     ]
     extra = [
         {"sid": "table", "family": "table", "size": 10 if q else 12, "donor": ("table", 10), "max_slices": 20 if q else 40},
